@@ -36,7 +36,7 @@ REQUIRED = {"ratios_checked": 3000, "direct_ratio_crosschecks": 100,
             "replacement_point_checked": 500,
             "replacement_after_soc_checked": 5}
 MIN_NONTRIVIAL = {"quick": 100, "thorough": 800}
-PLAN = [("driven", 240, 3600), ("real", 120, 1800)]
+PLAN = [("driven", 240, 3600), ("real", 200, 2400)]
 EPS = np.finfo(float).eps
 
 
@@ -275,7 +275,16 @@ def run_real(case):
                        forms=("nlc",), with_faults=bool(rng.random() < 0.3),
                        con=str(rng.choice(["none", "lin", "nl", "both"],
                                           p=[0.2, 0.3, 0.3, 0.2])))
-    if rng.random() < 0.3:
+    if rng.random() < 0.35:
+        # constraints AND bounds with x0 on the box: the tangential geometry
+        # candidate (rated before it is clipped) regularly crosses a bound
+        spec = gen.general(rng, n=int(rng.integers(2, 4)), maxfev=(40, 100),
+                           forms=("nlc",), con=str(rng.choice(["lin", "nl",
+                                                               "both"])),
+                           bound_patterns=("two", "narrow", "two"),
+                           x0_where=str(rng.choice(["on", "inside"])),
+                           with_callback=False)
+    elif rng.random() < 0.45:
         # curved feasible set hugging a face of the box: second-order
         # correction steps abound (the C01 'soc' generator)
         from checks import c01
